@@ -30,6 +30,27 @@ def run_fragment(body: Sequence[ast.stmt], names: Dict[str, Any], attrs: Optiona
     env = dict(names)
     attrs = dict(attrs or {})
     steps = [0]
+    #: names bound to the *same* tensor / list object by a plain `a = b` (or a view of it): a store through one of them
+    #: would be visible through the other - the evaluator's values are copies, so such a store is refused
+    shared: Dict[str, set] = {}
+
+    def note_alias(target: ast.AST, value: ast.AST) -> None:
+        VIEW = ("view", "reshape", "detach", "to", "contiguous", "squeeze", "unsqueeze", "t", "transpose", "permute", "flatten", "float", "long", "int", "expand")
+        v = value
+        while (isinstance(v, ast.Call) and isinstance(v.func, ast.Attribute) and v.func.attr in VIEW) or (isinstance(v, ast.Attribute) and v.attr in ("T", "mT", "data", "real")) or isinstance(v, ast.Subscript):
+            v = v.func.value if isinstance(v, ast.Call) else v.value
+        if isinstance(target, ast.Name):
+            for grp in shared.values():
+                grp.discard(target.id)
+            if isinstance(v, ast.Name) and v.id != target.id and isinstance(env.get(v.id), list):
+                grp = shared.setdefault(v.id, {v.id})
+                grp.add(target.id)
+                shared[target.id] = grp
+
+    def refuse_shared(name: str) -> None:
+        grp = shared.get(name)
+        if grp and len(grp) > 1:
+            raise Unfoldable(f"store into `{name}`, which shares its storage with {sorted(grp - {name})} (aliasing is not modelled)")
 
     def fold(e):
         f = Folder(env, attrs)
@@ -44,6 +65,8 @@ def run_fragment(body: Sequence[ast.stmt], names: Dict[str, Any], attrs: Optiona
 
         from .astutil import attr_chain as _chain
 
+        if isinstance(t.value, ast.Name):
+            refuse_shared(t.value.id)
         if isinstance(t.value, ast.Name) and isinstance(env.get(t.value.id), dict):
             key = fold(t.slice)
             if isinstance(key, list):
@@ -122,6 +145,7 @@ def run_fragment(body: Sequence[ast.stmt], names: Dict[str, Any], attrs: Optiona
     def list_method(c: ast.Call):
         """append / extend / insert / pop / reverse on a list bound to a name: rebinds the name, returns the call's value"""
         nm = c.func.value.id
+        refuse_shared(nm)
         cur = env[nm]
         mk = type(cur) if isinstance(cur, PySeq) else list
         a = [fold(x) for x in c.args]
@@ -256,6 +280,7 @@ def run_fragment(body: Sequence[ast.stmt], names: Dict[str, Any], attrs: Optiona
                     continue
                 for t in st.targets:
                     bind(t, v)
+                    note_alias(t, st.value)
             elif isinstance(st, ast.AnnAssign):
                 if st.value is not None:
                     bind(st.target, fold(st.value))
